@@ -69,6 +69,7 @@ type rtGenOpts struct {
 	pushbackPc int // % of failing scripts that carry a pushback trailer
 	sleepPct   int // % of failing scripts that sleep first (client runs ahead)
 	headerOp   bool
+	headerPct  int
 	// noMsgFail: failing scripts never send a message. The world's wire ledger
 	// attributes a response stream without x-sim-att header (scripts without
 	// sends) to invocation 0, which is only right if invocation 0 sent nothing
@@ -128,7 +129,7 @@ func rtGenRPC(r *core.Rand, id uint32, p *rtPolicy, o rtGenOpts, nFail int) RPC 
 			okSrv = append(okSrv, Op{Op: "send", N: o.sizes()})
 		}
 	}
-	if o.headerOp && r.Chance(1, 6) {
+	if o.headerOp && r.Intn(100) < max(o.headerPct, 17) {
 		rpc.Client = append(rpc.Client, Op{Op: "header"})
 	}
 	rpc.Client = append(rpc.Client, Op{Op: "recv_all"})
@@ -299,9 +300,18 @@ func genC18(seed uint64, tier string) *Scenario {
 	}
 	class := r.Intn(100)
 	o := rtGenOpts{sizes: bigSizes, maxMsgs: 4, commitPct: 20, pushbackPc: 15, sleepPct: 35, headerOp: true, noMsgFail: class >= 60}
+	if class >= 70 && class < 82 && r.Chance(2, 3) {
+		// unsent streams, Header() before any response and a small bucket whose
+		// refills matter: the combination that exposes wrong success accounting
+		cfg.Throttle = &rtThrottle{MaxMilli: int64(core.Pick(r, 2000, 3000, 4000)), RatioMilli: int64(core.Pick(r, 2000, 4000))}
+		o.headerPct = 50
+	}
 	n := r.Range(1, 5)
 	if tier == "thorough" {
 		n = r.Range(1, 9)
+	}
+	if class >= 70 && class < 82 {
+		n = max(n, 4)
 	}
 	for i := 0; i < n; i++ {
 		nFail := r.Intn(pol.MaxAttempts + 2)
@@ -374,6 +384,11 @@ func genC18(seed uint64, tier string) *Scenario {
 	}
 	if class >= 60 {
 		rtYieldFloor(r, s)
+	}
+	if class >= 60 && class < 82 {
+		// see the server-stop class: a connection whose write side is dead and
+		// whose read side has not noticed yet makes attempts spin
+		s.Net.LatencyNs, s.Net.StallPct = 0, 0
 	}
 	s.Ext = map[string]rawJSON{"retry": ExtJSON(cfg)}
 	return s
